@@ -102,6 +102,7 @@ let rec cstmt_of (t : Sexp.t) : cstmt =
                | L [A "pc"; k; body] -> PCont (xs (atom k), cblk_of body, acc)
                | _ -> failwith "bad param") ps PNil)
   | L [A "smsg"; body] -> SMsg (cblk_of body)
+  | L [A "smsgpl"; pn; v; q] -> SMsgPl (xs (atom pn), cexpr_of v, cplur_of q)
   | L [A "scss"; A "none"; sfx] -> SCss (None, xs (atom sfx))
   | L [A "scss"; e; sfx] -> SCss (Some (cexpr_of e), xs (atom sfx))
   | L [A "sforrange"; x; L (a1 :: rest); body; hasie; ie] ->
@@ -111,6 +112,11 @@ and cblk_of (t : Sexp.t) : cblk =
   match t with
   | L (A "blk" :: items) -> List.fold_right (fun x acc -> BCons (cstmt_of x, acc)) items BNil
   | _ -> failwith ("bad cblk " ^ to_string t)
+and cplur_of (t : Sexp.t) : cplur =
+  match t with
+  | L [A "qdflt"; b] -> QDflt (cblk_of b)
+  | L [A "qcase"; z; b; rest] -> QCase (zz z, cblk_of b, cplur_of rest)
+  | _ -> failwith ("bad cplur " ^ to_string t)
 and celse_of (t : Sexp.t) : celse =
   match t with
   | L [A "enone"] -> ENone
